@@ -1150,130 +1150,130 @@ package ast
 //@   modifies @clonefx
 //@   ensures[C09] fresh: fresh(c) && !$blue[c]
 //@   ensures[C09,C16] faithful: c.GrlText == e.GrlText && c.RuleName == e.RuleName && c.RuleDescription == e.RuleDescription && c.Salience == e.Salience && c.Deleted == e.Deleted && !c.Retracted
-//@   ensures[C09] children: (e.WhenScope == nil ==> c.WhenScope == nil) && (e.WhenScope != nil ==> has(cloneTable.Records, e.WhenScope.AstID) && c.WhenScope == imageOf(cloneTable, e.WhenScope.AstID)) && (e.ThenScope == nil ==> c.ThenScope == nil) && (e.ThenScope != nil ==> has(cloneTable.Records, e.ThenScope.AstID) && c.ThenScope == imageOf(cloneTable, e.ThenScope.AstID))
+//@   ensures[C09,C01,C02] children: (e.WhenScope == nil ==> c.WhenScope == nil) && (e.WhenScope != nil ==> has(cloneTable.Records, e.WhenScope.AstID) && c.WhenScope == imageOf(cloneTable, e.WhenScope.AstID)) && (e.ThenScope == nil ==> c.ThenScope == nil) && (e.ThenScope != nil ==> has(cloneTable.Records, e.ThenScope.AstID) && c.ThenScope == imageOf(cloneTable, e.ThenScope.AstID))
 //@   ensures[C09] tableinv: TableInv(cloneTable)
-//@   ensures[C09] recordskept: recordsKept(cloneTable)
+//@   ensures[C09,C01,C02] recordskept: recordsKept(cloneTable)
 //@   ensures allocmono: forall p Ref :: old(allocated(p)) ==> allocated(p)
 
 //@ func (e *WhenScope) Clone(cloneTable) (c)
-//@   serves C09
+//@   serves C09 C01 C02
 //@   opt alloc=1
 //@   requires e != nil
 //@   requires TableInv(cloneTable)
 //@   modifies @clonefx
 //@   ensures[C09] fresh: fresh(c) && !$blue[c]
 //@   ensures[C09] faithful: c.GrlText == e.GrlText
-//@   ensures[C09] children: (e.Expression == nil ==> c.Expression == nil) && (e.Expression != nil ==> has(cloneTable.Records, e.Expression.AstID) && c.Expression == imageOf(cloneTable, e.Expression.AstID))
+//@   ensures[C09,C01,C02] children: (e.Expression == nil ==> c.Expression == nil) && (e.Expression != nil ==> has(cloneTable.Records, e.Expression.AstID) && c.Expression == imageOf(cloneTable, e.Expression.AstID))
 //@   ensures[C09] tableinv: TableInv(cloneTable)
-//@   ensures[C09] recordskept: recordsKept(cloneTable)
+//@   ensures[C09,C01,C02] recordskept: recordsKept(cloneTable)
 //@   ensures allocmono: forall p Ref :: old(allocated(p)) ==> allocated(p)
 
 //@ func (e *ThenScope) Clone(cloneTable) (c)
-//@   serves C09
+//@   serves C09 C01 C02
 //@   opt alloc=1
 //@   requires e != nil
 //@   requires TableInv(cloneTable)
 //@   modifies @clonefx
 //@   ensures[C09] fresh: fresh(c) && !$blue[c]
 //@   ensures[C09] faithful: c.GrlText == e.GrlText
-//@   ensures[C09] children: (e.ThenExpressionList == nil ==> c.ThenExpressionList == nil) && (e.ThenExpressionList != nil ==> has(cloneTable.Records, e.ThenExpressionList.AstID) && c.ThenExpressionList == imageOf(cloneTable, e.ThenExpressionList.AstID))
+//@   ensures[C09,C01,C02] children: (e.ThenExpressionList == nil ==> c.ThenExpressionList == nil) && (e.ThenExpressionList != nil ==> has(cloneTable.Records, e.ThenExpressionList.AstID) && c.ThenExpressionList == imageOf(cloneTable, e.ThenExpressionList.AstID))
 //@   ensures[C09] tableinv: TableInv(cloneTable)
-//@   ensures[C09] recordskept: recordsKept(cloneTable)
+//@   ensures[C09,C01,C02] recordskept: recordsKept(cloneTable)
 //@   ensures allocmono: forall p Ref :: old(allocated(p)) ==> allocated(p)
 
 //@ func (e *ThenExpression) Clone(cloneTable) (c)
-//@   serves C09
+//@   serves C09 C01 C02
 //@   opt alloc=1
 //@   requires e != nil
 //@   requires TableInv(cloneTable)
 //@   modifies @clonefx
 //@   ensures[C09] fresh: fresh(c) && !$blue[c]
 //@   ensures[C09] faithful: c.GrlText == e.GrlText
-//@   ensures[C09] children: (e.Assignment == nil ==> c.Assignment == nil) && (e.Assignment != nil ==> has(cloneTable.Records, e.Assignment.AstID) && c.Assignment == imageOf(cloneTable, e.Assignment.AstID)) && (e.ExpressionAtom == nil ==> c.ExpressionAtom == nil) && (e.ExpressionAtom != nil ==> has(cloneTable.Records, e.ExpressionAtom.AstID) && c.ExpressionAtom == imageOf(cloneTable, e.ExpressionAtom.AstID))
+//@   ensures[C09,C01,C02] children: (e.Assignment == nil ==> c.Assignment == nil) && (e.Assignment != nil ==> has(cloneTable.Records, e.Assignment.AstID) && c.Assignment == imageOf(cloneTable, e.Assignment.AstID)) && (e.ExpressionAtom == nil ==> c.ExpressionAtom == nil) && (e.ExpressionAtom != nil ==> has(cloneTable.Records, e.ExpressionAtom.AstID) && c.ExpressionAtom == imageOf(cloneTable, e.ExpressionAtom.AstID))
 //@   ensures[C09] tableinv: TableInv(cloneTable)
-//@   ensures[C09] recordskept: recordsKept(cloneTable)
+//@   ensures[C09,C01,C02] recordskept: recordsKept(cloneTable)
 //@   ensures allocmono: forall p Ref :: old(allocated(p)) ==> allocated(p)
 
 //@ func (e *Assignment) Clone(cloneTable) (c)
-//@   serves C09
+//@   serves C09 C01 C02
 //@   opt alloc=1
 //@   requires e != nil
 //@   requires TableInv(cloneTable)
 //@   modifies @clonefx
 //@   ensures[C09] fresh: fresh(c) && !$blue[c]
 //@   ensures[C09] faithful: c.GrlText == e.GrlText && c.IsAssign == e.IsAssign && c.IsPlusAssign == e.IsPlusAssign && c.IsMinusAssign == e.IsMinusAssign && c.IsDivAssign == e.IsDivAssign && c.IsMulAssign == e.IsMulAssign
-//@   ensures[C09] children: (e.Variable == nil ==> c.Variable == nil) && (e.Variable != nil ==> has(cloneTable.Records, e.Variable.AstID) && c.Variable == imageOf(cloneTable, e.Variable.AstID)) && (e.Expression == nil ==> c.Expression == nil) && (e.Expression != nil ==> has(cloneTable.Records, e.Expression.AstID) && c.Expression == imageOf(cloneTable, e.Expression.AstID))
+//@   ensures[C09,C01,C02] children: (e.Variable == nil ==> c.Variable == nil) && (e.Variable != nil ==> has(cloneTable.Records, e.Variable.AstID) && c.Variable == imageOf(cloneTable, e.Variable.AstID)) && (e.Expression == nil ==> c.Expression == nil) && (e.Expression != nil ==> has(cloneTable.Records, e.Expression.AstID) && c.Expression == imageOf(cloneTable, e.Expression.AstID))
 //@   ensures[C09] tableinv: TableInv(cloneTable)
-//@   ensures[C09] recordskept: recordsKept(cloneTable)
+//@   ensures[C09,C01,C02] recordskept: recordsKept(cloneTable)
 //@   ensures allocmono: forall p Ref :: old(allocated(p)) ==> allocated(p)
 
 //@ func (e *Expression) Clone(cloneTable) (c)
-//@   serves C09
+//@   serves C09 C01 C02
 //@   opt alloc=1
 //@   requires e != nil
 //@   requires TableInv(cloneTable)
 //@   modifies @clonefx
 //@   ensures[C09] fresh: fresh(c) && !$blue[c]
 //@   ensures[C09] faithful: c.GrlText == e.GrlText && c.Operator == e.Operator && c.Negated == e.Negated
-//@   ensures[C09] children: (e.LeftExpression == nil ==> c.LeftExpression == nil) && (e.LeftExpression != nil ==> has(cloneTable.Records, e.LeftExpression.AstID) && c.LeftExpression == imageOf(cloneTable, e.LeftExpression.AstID)) && (e.RightExpression == nil ==> c.RightExpression == nil) && (e.RightExpression != nil ==> has(cloneTable.Records, e.RightExpression.AstID) && c.RightExpression == imageOf(cloneTable, e.RightExpression.AstID)) && (e.SingleExpression == nil ==> c.SingleExpression == nil) && (e.SingleExpression != nil ==> has(cloneTable.Records, e.SingleExpression.AstID) && c.SingleExpression == imageOf(cloneTable, e.SingleExpression.AstID)) && (e.ExpressionAtom == nil ==> c.ExpressionAtom == nil) && (e.ExpressionAtom != nil ==> has(cloneTable.Records, e.ExpressionAtom.AstID) && c.ExpressionAtom == imageOf(cloneTable, e.ExpressionAtom.AstID))
+//@   ensures[C09,C01,C02] children: (e.LeftExpression == nil ==> c.LeftExpression == nil) && (e.LeftExpression != nil ==> has(cloneTable.Records, e.LeftExpression.AstID) && c.LeftExpression == imageOf(cloneTable, e.LeftExpression.AstID)) && (e.RightExpression == nil ==> c.RightExpression == nil) && (e.RightExpression != nil ==> has(cloneTable.Records, e.RightExpression.AstID) && c.RightExpression == imageOf(cloneTable, e.RightExpression.AstID)) && (e.SingleExpression == nil ==> c.SingleExpression == nil) && (e.SingleExpression != nil ==> has(cloneTable.Records, e.SingleExpression.AstID) && c.SingleExpression == imageOf(cloneTable, e.SingleExpression.AstID)) && (e.ExpressionAtom == nil ==> c.ExpressionAtom == nil) && (e.ExpressionAtom != nil ==> has(cloneTable.Records, e.ExpressionAtom.AstID) && c.ExpressionAtom == imageOf(cloneTable, e.ExpressionAtom.AstID))
 //@   ensures[C09] tableinv: TableInv(cloneTable)
-//@   ensures[C09] recordskept: recordsKept(cloneTable)
+//@   ensures[C09,C01,C02] recordskept: recordsKept(cloneTable)
 //@   ensures allocmono: forall p Ref :: old(allocated(p)) ==> allocated(p)
 
 //@ func (e *ExpressionAtom) Clone(cloneTable) (c)
-//@   serves C09
+//@   serves C09 C01 C02
 //@   opt alloc=1
 //@   requires e != nil
 //@   requires TableInv(cloneTable)
 //@   modifies @clonefx
 //@   ensures[C09] fresh: fresh(c) && !$blue[c]
 //@   ensures[C09] faithful: c.GrlText == e.GrlText && c.VariableName == e.VariableName && c.Negated == e.Negated
-//@   ensures[C09] children: (e.Constant == nil ==> c.Constant == nil) && (e.Constant != nil ==> has(cloneTable.Records, e.Constant.AstID) && c.Constant == imageOf(cloneTable, e.Constant.AstID)) && (e.Variable == nil ==> c.Variable == nil) && (e.Variable != nil ==> has(cloneTable.Records, e.Variable.AstID) && c.Variable == imageOf(cloneTable, e.Variable.AstID)) && (e.FunctionCall == nil ==> c.FunctionCall == nil) && (e.FunctionCall != nil ==> has(cloneTable.Records, e.FunctionCall.AstID) && c.FunctionCall == imageOf(cloneTable, e.FunctionCall.AstID)) && (e.ExpressionAtom == nil ==> c.ExpressionAtom == nil) && (e.ExpressionAtom != nil ==> has(cloneTable.Records, e.ExpressionAtom.AstID) && c.ExpressionAtom == imageOf(cloneTable, e.ExpressionAtom.AstID)) && (e.ArrayMapSelector == nil ==> c.ArrayMapSelector == nil) && (e.ArrayMapSelector != nil ==> has(cloneTable.Records, e.ArrayMapSelector.AstID) && c.ArrayMapSelector == imageOf(cloneTable, e.ArrayMapSelector.AstID))
+//@   ensures[C09,C01,C02] children: (e.Constant == nil ==> c.Constant == nil) && (e.Constant != nil ==> has(cloneTable.Records, e.Constant.AstID) && c.Constant == imageOf(cloneTable, e.Constant.AstID)) && (e.Variable == nil ==> c.Variable == nil) && (e.Variable != nil ==> has(cloneTable.Records, e.Variable.AstID) && c.Variable == imageOf(cloneTable, e.Variable.AstID)) && (e.FunctionCall == nil ==> c.FunctionCall == nil) && (e.FunctionCall != nil ==> has(cloneTable.Records, e.FunctionCall.AstID) && c.FunctionCall == imageOf(cloneTable, e.FunctionCall.AstID)) && (e.ExpressionAtom == nil ==> c.ExpressionAtom == nil) && (e.ExpressionAtom != nil ==> has(cloneTable.Records, e.ExpressionAtom.AstID) && c.ExpressionAtom == imageOf(cloneTable, e.ExpressionAtom.AstID)) && (e.ArrayMapSelector == nil ==> c.ArrayMapSelector == nil) && (e.ArrayMapSelector != nil ==> has(cloneTable.Records, e.ArrayMapSelector.AstID) && c.ArrayMapSelector == imageOf(cloneTable, e.ArrayMapSelector.AstID))
 //@   ensures[C09] tableinv: TableInv(cloneTable)
-//@   ensures[C09] recordskept: recordsKept(cloneTable)
+//@   ensures[C09,C01,C02] recordskept: recordsKept(cloneTable)
 //@   ensures allocmono: forall p Ref :: old(allocated(p)) ==> allocated(p)
 
 //@ func (e *Variable) Clone(cloneTable) (c)
-//@   serves C09
+//@   serves C09 C01 C02
 //@   opt alloc=1
 //@   requires e != nil
 //@   requires TableInv(cloneTable)
 //@   modifies @clonefx
 //@   ensures[C09] fresh: fresh(c) && !$blue[c]
 //@   ensures[C09] faithful: c.GrlText == e.GrlText && c.Name == e.Name
-//@   ensures[C09] children: (e.Variable == nil ==> c.Variable == nil) && (e.Variable != nil ==> has(cloneTable.Records, e.Variable.AstID) && c.Variable == imageOf(cloneTable, e.Variable.AstID)) && (e.ArrayMapSelector == nil ==> c.ArrayMapSelector == nil) && (e.ArrayMapSelector != nil ==> has(cloneTable.Records, e.ArrayMapSelector.AstID) && c.ArrayMapSelector == imageOf(cloneTable, e.ArrayMapSelector.AstID))
+//@   ensures[C09,C01,C02] children: (e.Variable == nil ==> c.Variable == nil) && (e.Variable != nil ==> has(cloneTable.Records, e.Variable.AstID) && c.Variable == imageOf(cloneTable, e.Variable.AstID)) && (e.ArrayMapSelector == nil ==> c.ArrayMapSelector == nil) && (e.ArrayMapSelector != nil ==> has(cloneTable.Records, e.ArrayMapSelector.AstID) && c.ArrayMapSelector == imageOf(cloneTable, e.ArrayMapSelector.AstID))
 //@   ensures[C09] tableinv: TableInv(cloneTable)
-//@   ensures[C09] recordskept: recordsKept(cloneTable)
+//@   ensures[C09,C01,C02] recordskept: recordsKept(cloneTable)
 //@   ensures allocmono: forall p Ref :: old(allocated(p)) ==> allocated(p)
 
 //@ func (e *ArrayMapSelector) Clone(cloneTable) (c)
-//@   serves C09
+//@   serves C09 C01 C02
 //@   opt alloc=1
 //@   requires e != nil
 //@   requires TableInv(cloneTable)
 //@   modifies @clonefx
 //@   ensures[C09] fresh: fresh(c) && !$blue[c]
 //@   ensures[C09] faithful: c.GrlText == e.GrlText
-//@   ensures[C09] children: (e.Expression == nil ==> c.Expression == nil) && (e.Expression != nil ==> has(cloneTable.Records, e.Expression.AstID) && c.Expression == imageOf(cloneTable, e.Expression.AstID))
+//@   ensures[C09,C01,C02] children: (e.Expression == nil ==> c.Expression == nil) && (e.Expression != nil ==> has(cloneTable.Records, e.Expression.AstID) && c.Expression == imageOf(cloneTable, e.Expression.AstID))
 //@   ensures[C09] tableinv: TableInv(cloneTable)
-//@   ensures[C09] recordskept: recordsKept(cloneTable)
+//@   ensures[C09,C01,C02] recordskept: recordsKept(cloneTable)
 //@   ensures allocmono: forall p Ref :: old(allocated(p)) ==> allocated(p)
 
 //@ func (e *FunctionCall) Clone(cloneTable) (c)
-//@   serves C09
+//@   serves C09 C01 C02
 //@   opt alloc=1
 //@   requires e != nil
 //@   requires TableInv(cloneTable)
 //@   modifies @clonefx
 //@   ensures[C09] fresh: fresh(c) && !$blue[c]
 //@   ensures[C09] faithful: c.GrlText == e.GrlText && c.FunctionName == e.FunctionName
-//@   ensures[C09] children: (e.ArgumentList == nil ==> c.ArgumentList == nil) && (e.ArgumentList != nil ==> has(cloneTable.Records, e.ArgumentList.AstID) && c.ArgumentList == imageOf(cloneTable, e.ArgumentList.AstID))
+//@   ensures[C09,C01,C02] children: (e.ArgumentList == nil ==> c.ArgumentList == nil) && (e.ArgumentList != nil ==> has(cloneTable.Records, e.ArgumentList.AstID) && c.ArgumentList == imageOf(cloneTable, e.ArgumentList.AstID))
 //@   ensures[C09] tableinv: TableInv(cloneTable)
-//@   ensures[C09] recordskept: recordsKept(cloneTable)
+//@   ensures[C09,C01,C02] recordskept: recordsKept(cloneTable)
 //@   ensures allocmono: forall p Ref :: old(allocated(p)) ==> allocated(p)
 
 //@ func (e *Constant) Clone(cloneTable) (c)
-//@   serves C09
+//@   serves C09 C01 C02
 //@   opt alloc=1
 //@   requires e != nil
 //@   requires TableInv(cloneTable)
@@ -1281,7 +1281,7 @@ package ast
 //@   ensures[C09] fresh: fresh(c) && !$blue[c]
 //@   ensures[C09] faithful: c.GrlText == e.GrlText && c.Value == e.Value
 //@   ensures[C09] tableinv: TableInv(cloneTable)
-//@   ensures[C09] recordskept: recordsKept(cloneTable)
+//@   ensures[C09,C01,C02] recordskept: recordsKept(cloneTable)
 //@   ensures allocmono: forall p Ref :: old(allocated(p)) ==> allocated(p)
 
 
